@@ -86,7 +86,7 @@ def _hint_terms(formulas):
     return list(found.values())
 
 
-def to_smt2_parts(pc, hyps, atom, extra_hints=()):
+def to_smt2_parts(pc, hyps, atom, extra_hints=(), split_terms=()):
     s = z3.Solver()
     fs = list(pc) + list(hyps) + [z3.Not(atom)]
     for f in fs:
@@ -95,12 +95,14 @@ def to_smt2_parts(pc, hyps, atom, extra_hints=()):
     for t in hints:
         h = z3.Function("hint!" + str(t.sort()).replace(" ", "_").replace("(", "<").replace(")", ">"), t.sort(), z3.BoolSort())
         s.add(h(t))
+    for t in split_terms:
+        s.add(z3.Function("split!Int", z3.IntSort(), z3.BoolSort())(t))
     return s.to_smt2().replace("(check-sat)\n", "")
 
 
 def to_smt2(ob):
     parts = expand_goal(ob.goal)
-    return [to_smt2_parts(ob.pc, hs, atom, ob.observables or ()) for hs, atom in parts]
+    return [to_smt2_parts(ob.pc, hs, atom, ob.observables or (), getattr(ob, "split_terms", None) or ()) for hs, atom in parts]
 
 
 _pool = None
@@ -173,7 +175,7 @@ def discharge(obligations, timeout_ms=10000, second=True, want_model=True):
         for hs, atom in parts:
             if syntactically_implied(ob.pc, hs, atom):
                 continue
-            pending.append(to_smt2_parts(ob.pc, hs, atom, ob.observables or ()))
+            pending.append(to_smt2_parts(ob.pc, hs, atom, ob.observables or (), getattr(ob, "split_terms", None) or ()))
         if not pending:
             results[i] = {"name": ob.name, "verdict": "proved", "backend": "syntactic(alpha-equivalent hypothesis)", "seconds": 0.0,
                           "model": None, "reason": "", "parts": len(parts)}
